@@ -119,10 +119,11 @@ class FnItem:
 
 
 class FnPtr:
-    __slots__ = ('inst',)
+    __slots__ = ('inst', 'closure')
 
-    def __init__(self, inst):
+    def __init__(self, inst, closure=False):
         self.inst = inst
+        self.closure = closure   # a non-capturing closure coerced to fn pointer: called as (env, (args..))
 
 
 class StrRef:
@@ -157,6 +158,43 @@ def is_sym(v):
     return isinstance(v, z3.ExprRef)
 
 
+class SymF:
+    """A symbolic f64 whose value is an exactly representable dyadic rational: `r` is a z3 Real term,
+    |value| < 2**mag and value * 2**frac is an integer, with mag + frac <= 53, so that every
+    operation performed on it (+, -, comparison, scaling by a power of two) is exact in IEEE-754
+    binary64 and coincides with real arithmetic. Anything else concretises the operand first."""
+    __slots__ = ('r', 'mag', 'frac')
+
+    def __init__(self, r, mag, frac):
+        self.r = r
+        self.mag = mag
+        self.frac = frac
+
+    def __repr__(self):
+        return 'SymF(%s)' % self.r
+
+
+def symf_of_const(c):
+    """concrete float -> SymF-compatible (real value, mag, frac) or None"""
+    if c != c or c in (math.inf, -math.inf):
+        return None
+    for k in range(0, 13):
+        x = c * (1 << k)
+        if x == int(x):
+            m = abs(int(x)).bit_length() - k + 1
+            if m > 41:
+                return None
+            return z3.RealVal(int(x)) / (1 << k) if k else z3.RealVal(int(x)), max(m, 1), k
+    return None
+
+
+def pow2_exp(c):
+    if c <= 0 or c != c or c == math.inf:
+        return None
+    m, e = math.frexp(c)
+    return e - 1 if m == 0.5 else None
+
+
 def copy_val(v):
     """copy semantics for `Copy(place)`: aggregates are duplicated, objects with identity are shared"""
     if type(v) is Agg:
@@ -188,6 +226,10 @@ class Frame:
 
 
 RUST_CALL_NAMES = ('std::ops::Fn::call', 'std::ops::FnMut::call_mut', 'std::ops::FnOnce::call_once')
+
+
+CLOSURE_PTR = {'name': '<closure fn pointer>'}
+RUST_CALL = {'name': 'std::ops::FnOnce::call_once'}
 
 
 def key1(d):
@@ -487,7 +529,7 @@ class Interp:
                 if o == off:
                     a = self.p.allocs[pid]
                     if a['kind'] == 'fn':
-                        return FnPtr(a['inst'])
+                        return self.fnptr_of(a['inst'])
             return NullPtr(self.read_uint(alloc, off, 8) or 0)
         if k == 'tuple':
             offs = [o['num_bits'] // 8 for o in t['layout']['fields']['Arbitrary']['offsets']] if t['fields'] else []
@@ -507,6 +549,10 @@ class Interp:
             if not up['fields']:
                 return Agg([])
         raise Unsupported('decode constant of type %s' % t['str'])
+
+    def fnptr_of(self, inst):
+        n = self.p.fn_name(inst)
+        return FnPtr(inst, n.startswith('<{closure@') and ' as std::ops::FnOnce<' in n)
 
     def decode_ptr(self, t, alloc, off):
         pointee = self.p.tys[t['pointee']]
@@ -531,7 +577,7 @@ class Interp:
             cell = self.static_cell(a['static'])
             return Ptr(cell, 0)
         if ak == 'fn':
-            return FnPtr(a['inst'])
+            return self.fnptr_of(a['inst'])
         if ak == 'mem':
             m = a['alloc']
             if pk == 'str':
@@ -639,13 +685,23 @@ class Interp:
             tv = type(v)
             if tv is Agg or tv is Enum:
                 return copy_val(v)
+            if v is UNINIT:
+                tid = self.place_ty(frame, op['Copy'])
+                if self.p.tys[tid]['size'] == 0:
+                    return self.zst(tid)
             return v
         if k == 'Move':
             pl = op['Move']
             if not pl['projection']:
-                return frame.f[pl['local']]
-            c, i, meta = self.eval_place(frame, pl)
-            return c.f[i]
+                v = frame.f[pl['local']]
+            else:
+                c, i, meta = self.eval_place(frame, pl)
+                v = c.f[i]
+            if v is UNINIT:
+                tid = self.place_ty(frame, pl)
+                if self.p.tys[tid]['size'] == 0:
+                    return self.zst(tid)
+            return v
         if k == 'Constant':
             v = self.eval_const(op['Constant'])
             tv = type(v)
@@ -785,7 +841,19 @@ class Interp:
         a, b = int(a), int(b)
         return {'Lt': a < b, 'Le': a <= b, 'Gt': a > b, 'Ge': a >= b}[op]
 
+    def symf_concretize(self, x):
+        q = self.ctx.concretize_real(x.r)
+        return q.numerator / q.denominator
+
     def float_binop(self, op, a, b, ta):
+        if type(a) is SymF or type(b) is SymF:
+            r = self.symf_binop(op, a, b, ta)
+            if r is not None:
+                return r[0]
+            if type(a) is SymF:
+                a = self.symf_concretize(a)
+            if type(b) is SymF:
+                b = self.symf_concretize(b)
         if is_sym(a) or is_sym(b):
             raise Unsupported('symbolic float')
         f32 = ta['bits'] == 32
@@ -820,6 +888,54 @@ class Interp:
         else:
             raise Unsupported('float binop ' + op)
         return f32_round(r) if f32 else r
+
+    def symf_binop(self, op, a, b, ta):
+        """exact symbolic float operation, or None when an operand has to be concretised"""
+        if ta['bits'] != 64:
+            return None
+        if op in ('Mul', 'Div'):
+            # scaling by a concrete power of two only
+            if type(a) is SymF and type(b) is float:
+                e = pow2_exp(b)
+                if e is None or abs(e) > 8:
+                    return None
+                if op == 'Div':
+                    e = -e
+                mag, frac = a.mag + e, max(0, a.frac - e)
+                if mag + frac > 53 or mag < -40:
+                    return None
+                return (SymF(a.r * (2 ** e) if e >= 0 else a.r / (2 ** (-e)), max(mag, 1), frac),)
+            if op == 'Mul' and type(b) is SymF and type(a) is float:
+                return self.symf_binop('Mul', b, a, ta)
+            return None
+        xs = []
+        for v in (a, b):
+            if type(v) is SymF:
+                xs.append((v.r, v.mag, v.frac))
+            else:
+                c = symf_of_const(v)
+                if c is None:
+                    return None
+                xs.append(c)
+        (ra, ma, fa), (rb, mb, fb) = xs
+        if op == 'Add' or op == 'Sub':
+            mag, frac = max(ma, mb) + 1, max(fa, fb)
+            if mag + frac > 53:
+                return None
+            return (SymF(ra + rb if op == 'Add' else ra - rb, mag, frac),)
+        if op == 'Eq':
+            return (ra == rb,)
+        if op == 'Ne':
+            return (ra != rb,)
+        if op == 'Lt':
+            return (ra < rb,)
+        if op == 'Le':
+            return (ra <= rb,)
+        if op == 'Gt':
+            return (ra > rb,)
+        if op == 'Ge':
+            return (ra >= rb,)
+        return None
 
     def ptr_binop(self, op, a, b):
         if op == 'Offset':
@@ -861,7 +977,7 @@ class Interp:
                 return FnPtr(ft['fnptr_inst'] or ft['inst'])
             if isinstance(pc, dict) and 'ClosureFnPointer' in pc:
                 src = self.p.tys[self.operand_ty(frame, op)]
-                return FnPtr(src['call_once'])
+                return FnPtr(src['call_once'], True)
             if pc in ('MutToConstPointer', 'UnsafeFnPointer'):
                 return v
             if pc == 'ArrayToPointer':
@@ -878,10 +994,14 @@ class Interp:
         if kind == 'IntToFloat':
             st = self.p.tys[self.operand_ty(frame, op)]
             if is_sym(v):
+                if tt['bits'] == 64 and self.ctx.implied(z3.And(v > -(1 << 40), v < (1 << 40))):
+                    return SymF(z3.ToReal(v), 41, 0)
                 v = self.ctx.concretize(v)
             r = float(v)
             return f32_round(r) if tt['bits'] == 32 else r
         if kind == 'FloatToInt':
+            if type(v) is SymF:
+                v = self.symf_concretize(v)
             if v != v:
                 return 0
             if v == math.inf:
@@ -891,6 +1011,8 @@ class Interp:
             r = int(v)
             return max(tt['lo'], min(tt['hi'], r))
         if kind == 'FloatToFloat':
+            if type(v) is SymF:
+                v = self.symf_concretize(v)
             return f32_round(v) if tt['bits'] == 32 else v
         if kind in ('PtrToPtr', 'FnPtrToPtr', 'Subtype'):
             if type(v) is Ptr:
@@ -919,6 +1041,10 @@ class Interp:
 
     def transmute(self, v, st, tt):
         sk, tk = st['kind'], tt['kind']
+        if sk == 'pat' or tk == 'pat':
+            return v
+        if type(v) is SymF:
+            v = self.symf_concretize(v)
         if sk == 'float' and tk == 'int':
             if st['bits'] == 64:
                 return struct.unpack('<Q', struct.pack('<d', v))[0]
@@ -941,6 +1067,8 @@ class Interp:
     def unsize(self, v, src, dst):
         """unsizing coercion of pointer-like value v from type src to dst"""
         sk = src['kind']
+        if sk == 'pat':
+            return self.unsize(v, self.p.tys[src['inner']], self.p.tys[dst['inner']])
         if sk in ('ref', 'ptr'):
             sp = self.p.tys[src['pointee']]
             dp = self.p.tys[dst['pointee']]
@@ -958,6 +1086,18 @@ class Interp:
                     nf[j] = self.unsize(v.f[j], self.p.tys[sf['ty']], self.p.tys[df['ty']])
             return Agg(nf)
         raise Unsupported('unsize %s' % src['str'])
+
+    def tail_dyn(self, sp, dp):
+        """concrete type behind a (possibly struct-tail) unsizing sp -> dp, as Dyn metadata"""
+        ts, td = sp, dp
+        while td['kind'] == 'adt':
+            fs, fd = ts['variants'][0]['fields'], td['variants'][0]['fields']
+            ts, td = self.p.tys[fs[-1]['ty']], self.p.tys[fd[-1]['ty']]
+        if td['kind'] == 'dyn':
+            if ts['kind'] == 'dyn':
+                return None
+            return Dyn(ts['id'])
+        raise Unsupported('unsizing %s -> %s' % (sp['str'], dp['str']))
 
     def unsize_ptr(self, v, sp, dp):
         if dp['kind'] == 'slice' and sp['kind'] == 'array':
@@ -1030,6 +1170,8 @@ class Interp:
             if d[0] == 'Neg':
                 if isinstance(v, float):
                     return -v
+                if type(v) is SymF:
+                    return SymF(-v.r, v.mag, v.frac)
                 t = self.p.tys[self.operand_ty(frame, d[1])]
                 return self.int_wrap(-v, t)
             if d[0] == 'PtrMetadata':
@@ -1045,6 +1187,10 @@ class Interp:
         if k == 'Discriminant':
             c, i, meta = self.eval_place(frame, d)
             v = c.f[i]
+            if v is UNINIT:
+                tid = self.place_ty(frame, d)
+                if self.p.tys[tid]['size'] == 0:
+                    v = self.zst(tid)
             tv = type(v)
             if tv is Enum:
                 t = self.p.tys[self.place_ty(frame, d)]
@@ -1117,7 +1263,7 @@ class Interp:
                 return t['inst'], t
         v = self.eval_operand(frame, func)
         if type(v) is FnPtr:
-            return v.inst, None
+            return v.inst, (CLOSURE_PTR if v.closure else None)
         if type(v) is FnItem:
             t = self.p.tys[v.ty]
             return t['inst'], t
@@ -1158,6 +1304,9 @@ class Interp:
             raise Unsupported('unresolved callee')
         if iid[0] == 'V' and ':' in iid[:6]:
             iid = self.virtual_target(iid, args)
+        if fty is CLOSURE_PTR:
+            args = [Agg([]), Agg(list(args))]
+            fty = RUST_CALL
         fn = self.p.fns.get(iid)
         if fn is None:
             ext = self.p.exts.get(iid)
@@ -1177,26 +1326,13 @@ class Interp:
         self.called.add(iid)
         fr = Frame(fn, len(fn['locals']))
         n = fn['arg_count']
-        if len(args) == n:
-            if fty is not None and n >= 1 and fn['spread_arg'] is None and fty['name'] in RUST_CALL_NAMES \
-                    and type(args[-1]) is Agg and self.p.tys[fn['locals'][n]]['kind'] != 'tuple' or \
-                    (fty is not None and fn['spread_arg'] is None and fty['name'] in RUST_CALL_NAMES and n == 2
-                     and type(args[1]) is Agg and len(args[1].f) == 1 and self.p.tys[fn['locals'][2]]['kind'] != 'tuple'):
-                # closure body reached through Fn*::call*: untuple (env, (a,)) -> (env, a)
-                fr.f[1] = args[0]
-                fr.f[2] = args[1].f[0]
-            else:
-                for j in range(n):
-                    fr.f[j + 1] = args[j]
-        elif len(args) == 2 and type(args[1]) is Agg and len(args[1].f) == n - 1:
-            # closure body reached through Fn*::call*: (env, (args...)) untupling
-            fr.f[1] = args[0]
-            for j, x in enumerate(args[1].f):
-                fr.f[2 + j] = x
-        elif len(args) == 1 and n == 0 and type(args[0]) is Agg:
-            pass
-        else:
+        if fty is not None and fn['spread_arg'] is None and fty['name'] in RUST_CALL_NAMES and len(args) == 2 and type(args[1]) is Agg:
+            # "rust-call" convention (self, (args..)) reaching a body with untupled parameters
+            args = [args[0]] + list(args[1].f)
+        if len(args) != n:
             raise Unsupported('arity mismatch calling %s: %d args for %d' % (fn['name'], len(args), n))
+        for j in range(n):
+            fr.f[j + 1] = args[j]
         fr.dest = dest
         fr.ret_bb = ret_bb
         fr.unwind_bb = unwind_bb
@@ -1233,6 +1369,7 @@ class Interp:
         ctx = self.ctx
         while len(stack) > base:
             frame = stack[-1]
+            ctx.cur = frame
             stmts, term = frame.blocks[frame.bb]
             self.steps += len(stmts) + 1
             if self.steps > self.max_steps:
